@@ -1,9 +1,245 @@
-import ShkModel.Model.Prompt
-/-! # C05 (theorems being proved separately; placeholder) -/
+import ShkModel.Lemmas.Prompt
+/-!
+# C05 — a play runs to the end of its script unless a failure is reported
+
+Model and conventions as in `C04.lean`.  `perform env play rp fuel = (trace, ok, finished)`:
+`ok = false` is the error result of `prompt` (non-zero exit status), `finished = false` means the
+fuel ran out (only possible with an unbounded `repeat`).  Exit status 0 of a play that ended is
+`(trace, true, true)`.
+
+`expectedTrace play rp passes` lists, in execution order, the positions of a play that runs to its
+end in `passes` passes (the acts from `rp.fromAct` on being played `passes` times);
+`actMultiplicity play rp passes j` is the number of times act `j` is played then.
+-/
 namespace Shk.C05
 open Shk.Prompt
 
-theorem runLine_nil (env : Env) (ao a sc ln : Nat) (actor : String) (k t : Nat) :
-    runLine env ao a sc ln actor k t [] = ([], t, true) := rfl
+variable (env : Env) (play : Play) (rp : Repeat) (fuel : Nat)
+
+/-! ## Failures -/
+
+/-- A non-tolerated action failure yields the error result, and nothing later is performed: no
+action of a later scene group (later act occurrence, or later scene of the same occurrence), and
+no later step of the failed action's own line. -/
+theorem failure_stops (r : Rec) (hr : r ∈ (perform env play rp fuel).1)
+    (hok : r.ok = false) (hf : r.failOk = false) :
+    (perform env play rp fuel).2.1 = false ∧
+    ∀ q ∈ (perform env play rp fuel).1, r.pos.groupBefore q.pos = false ∧
+      (q.pos.actOcc = r.pos.actOcc → q.pos.scene = r.pos.scene → q.pos.line = r.pos.line →
+        q.pos.step ≤ r.pos.step) := by
+  obtain ⟨h1, h2⟩ := (perform_step env play rp fuel).bad r hr ⟨hok, hf⟩
+  exact ⟨h1, fun q hq => ⟨(h2 q hq).1, fun a b c => (h2 q hq).2 ⟨a.symm, b.symm, c.symm⟩⟩⟩
+
+/-- The play reports an error exactly when some performed action failed without being tolerated. -/
+theorem error_iff_untolerated_failure :
+    (perform env play rp fuel).2.1 = false ↔
+      ∃ r ∈ (perform env play rp fuel).1, r.ok = false ∧ r.failOk = false :=
+  ⟨(perform_step env play rp fuel).failed,
+   fun ⟨r, hr, h1, h2⟩ => (failure_stops env play rp fuel r hr h1 h2).1⟩
+
+/-- Failures of actions marked `?` do not affect the status: if every failed action is tolerated the
+result is not an error. -/
+theorem tolerated_continues (h : ∀ r ∈ (perform env play rp fuel).1, r.ok = false → r.failOk = true) :
+    (perform env play rp fuel).2.1 = true := by
+  cases hres : (perform env play rp fuel).2.1 with
+  | true => rfl
+  | false =>
+    obtain ⟨r, hr, h1, h2⟩ := (error_iff_untolerated_failure env play rp fuel).mp hres
+    rw [h r hr h1] at h2; cases h2
+
+/-- … nor do they stop the line: after an action that succeeded, or whose failure is tolerated, the
+next step of the line (if the script has one) is performed. -/
+theorem tolerated_next_step (r : Rec) (hr : r ∈ (perform env play rp fuel).1)
+    (htol : r.ok = true ∨ r.failOk = true)
+    (hnext : ∀ act s l, play[r.pos.act]? = some act → act[r.pos.scene]? = some s →
+      s.lines[r.pos.line]? = some l → r.pos.step + 1 < l.steps.length) :
+    ∃ q ∈ (perform env play rp fuel).1, q.pos = { r.pos with step := r.pos.step + 1 } := by
+  obtain ⟨act, s, l, _, t1, h1, h2, h3, _, _, h6, h7⟩ := (perform_step env play rp fuel).src r hr
+  have hnb : ¬ r.bad := by
+    intro hb; rcases htol with h | h
+    · rw [hb.1] at h; cases h
+    · rw [hb.2] at h; cases h
+  obtain ⟨q, hq, hp⟩ := runLine_next env _ _ _ _ l.actor 0 t1 l.steps r h6 hnb
+    (by have := hnext act s l h1 h2 h3; omega)
+  exact ⟨q, h7 q hq, hp⟩
+
+/-! ## Exit status 0: everything was performed, the prescribed number of times -/
+
+/-- If the play ends with status 0, the trace is exactly the expected one for some number of passes
+≥ 1 (at most `N` with `repeat N times`): every act occurrence consists of exactly the positions
+`actPositions` of its act, each once, in script order; the acts are played in order, and the acts
+from the repeat point on once per pass. -/
+theorem exit0_all_performed (tr : List Rec) (h : perform env play rp fuel = (tr, true, true)) :
+    ∃ passes, 1 ≤ passes ∧ tr.map (·.pos) = expectedTrace play rp passes ∧
+      (1 ≤ rp.count → (passes : Int) ≤ rp.count) := by
+  have hs := perform_step env play rp fuel
+  rw [h] at hs
+  have hp := hs.ok_pos rfl
+  obtain ⟨m, hm, h0, hc⟩ := hs.shape rfl rfl
+  refine ⟨m + 1, by omega, ?_, fun h1 => ?_⟩
+  · simp only [] at hp
+    rw [hp, hm, expectedActs_shape h0]; rfl
+  · rcases hc h1 with hc | hc
+    · simp only [Nat.zero_add] at hc; exact hc
+    · subst hc; simpa using h1
+
+/-- … in particular the trace is a permutation of the expected positions. -/
+theorem exit0_all_performed_perm (tr : List Rec) (h : perform env play rp fuel = (tr, true, true)) :
+    ∃ passes, 1 ≤ passes ∧ (tr.map (·.pos)).Perm (expectedTrace play rp passes) := by
+  obtain ⟨p, h1, h2, _⟩ := exit0_all_performed env play rp fuel tr h
+  exact ⟨p, h1, h2 ▸ List.Perm.refl _⟩
+
+/-- With `repeat N times` (N ≥ 1) and no time limit the number of passes is `N`: the acts from the
+repeat point on are played `N` times in total (not `N + 1`). -/
+theorem exit0_repeat_N (tr : List Rec) (h : perform env play rp fuel = (tr, true, true)) (N : Nat)
+    (hfa : 0 < rp.fromAct) (hto : rp.hasTimeout = false) (hN : rp.count = (N : Int)) (h1 : 1 ≤ N) :
+    tr.map (·.pos) = expectedTrace play rp N := by
+  have hs := perform_step env play rp fuel
+  rw [h] at hs
+  have hp := hs.ok_pos rfl
+  have hm := hs.shapeN hfa hto hN h1 (by omega) rfl rfl
+  have hsh := expectedActs_shape (play := play) (rp := rp) (m := N - 1) (fun h => by omega)
+  simp only [Nat.sub_zero] at hm hsh
+  rw [show N - 1 + 1 = N by omega] at hsh
+  simp only [] at hp
+  rw [hp, hm, hsh]; rfl
+
+/-- Without a `repeat` clause every act is played exactly once. -/
+theorem exit0_no_repeat (tr : List Rec) (h : perform env play rp fuel = (tr, true, true))
+    (hfa : rp.fromAct = 0) : tr.map (·.pos) = expectedTrace play rp 1 := by
+  obtain ⟨p, _, h2, _⟩ := exit0_all_performed env play rp fuel tr h
+  rw [h2]; simp [expectedTrace, expectedActs, hfa]
+
+/-- Multiplicities in an expected trace: every step of the script (step `k` of line `ln` of scene
+`sc` of act `j`) occurs exactly `actMultiplicity play rp passes j` times. -/
+theorem multiplicity_of_expected (tr : List Rec) (passes : Nat) (hp : 1 ≤ passes)
+    (h : tr.map (·.pos) = expectedTrace play rp passes)
+    (j sc ln k : Nat) (act : Act) (s : Scene) (l : Line)
+    (hj : play[j]? = some act) (hsc : act[sc]? = some s) (hln : s.lines[ln]? = some l)
+    (hk : k < l.steps.length) :
+    tr.countP (fun r => r.pos.act == j && r.pos.scene == sc && r.pos.line == ln && r.pos.step == k) =
+      actMultiplicity play rp passes j := by
+  have hmem : (sc, ln, k) ∈ actPositions act := (actPositions_mem_iff act sc ln k).mpr ⟨s, l, hsc, hln, hk⟩
+  have h1 : (tr.map (·.pos)).countP (posIs j sc ln k) = actMultiplicity play rp passes j := by
+    rw [h, expectedTrace, countP_expectedFrom, hj, Option.getD_some, count_actPositions hmem,
+      Nat.mul_one, count_expectedActs play rp passes j (some_lt hj) hp]
+  rw [List.countP_map] at h1
+  exact h1
+
+/-- Status 0, `repeat N times`: every step of an act before the repeat point is performed once,
+every step of a repeated act `N` times. -/
+theorem exit0_multiplicity_N (tr : List Rec) (h : perform env play rp fuel = (tr, true, true)) (N : Nat)
+    (hfa : 0 < rp.fromAct) (hto : rp.hasTimeout = false) (hN : rp.count = (N : Int)) (h1 : 1 ≤ N)
+    (j sc ln k : Nat) (act : Act) (s : Scene) (l : Line)
+    (hj : play[j]? = some act) (hsc : act[sc]? = some s) (hln : s.lines[ln]? = some l)
+    (hk : k < l.steps.length) :
+    tr.countP (fun r => r.pos.act == j && r.pos.scene == sc && r.pos.line == ln && r.pos.step == k) =
+      if j + 1 ≥ rp.fromAct then N else 1 := by
+  rw [multiplicity_of_expected play rp tr N h1 (exit0_repeat_N env play rp fuel tr h N hfa hto hN h1)
+    j sc ln k act s l hj hsc hln hk]
+  simp [actMultiplicity, hfa]
+
+/-- Status 0, no `repeat` clause: every step of the script is performed exactly once. -/
+theorem exit0_multiplicity_once (tr : List Rec) (h : perform env play rp fuel = (tr, true, true))
+    (hfa : rp.fromAct = 0)
+    (j sc ln k : Nat) (act : Act) (s : Scene) (l : Line)
+    (hj : play[j]? = some act) (hsc : act[sc]? = some s) (hln : s.lines[ln]? = some l)
+    (hk : k < l.steps.length) :
+    tr.countP (fun r => r.pos.act == j && r.pos.scene == sc && r.pos.line == ln && r.pos.step == k) = 1 := by
+  rw [multiplicity_of_expected play rp tr 1 (Nat.le_refl _) (exit0_no_repeat env play rp fuel tr h hfa)
+    j sc ln k act s l hj hsc hln hk]
+  simp [actMultiplicity, hfa]
+
+/-! ## The repeat counter -/
+
+/-- `repeat N times`, N ≥ 1 (with or without a time limit): the loop ends by itself within
+`play.length + N * (play.length - fromAct + 1)` act occurrences; and, with no time limit, if no
+error is reported the repeated acts have been played `N` times in total — the off-by-one that the
+code's test `numRepeats + 1 >= repeatCount` encodes. -/
+theorem repeat_count_total (N : Nat) (hfa : 0 < rp.fromAct) (hN : rp.count = (N : Int)) (h1 : 1 ≤ N)
+    (hfuel : play.length + N * (play.length - rp.fromAct + 1) ≤ fuel) :
+    (perform env play rp fuel).2.2 = true ∧
+    (rp.hasTimeout = false → (perform env play rp fuel).2.1 = true →
+      (perform env play rp fuel).1.map (·.pos) = expectedTrace play rp N) := by
+  have hfin : (perform env play rp fuel).2.2 = true := by
+    apply (perform_step env play rp fuel).finishes hfa hN h1
+    have h5 : N = (N - 1) + 1 := by omega
+    rw [h5, Nat.succ_mul] at hfuel
+    simp only [Nat.sub_zero] at hfuel ⊢
+    generalize (N - 1) * (play.length - rp.fromAct + 1) = P at hfuel ⊢
+    omega
+  refine ⟨hfin, fun hto hok => ?_⟩
+  have : perform env play rp fuel = ((perform env play rp fuel).1, true, true) :=
+    Prod.ext rfl (Prod.ext hok hfin)
+  exact exit0_repeat_N env play rp fuel _ this N hfa hto hN h1
+
+/-- The "repeat 0 times" quirk: with `repeat 0 times` or `repeat always` (count ≤ 0; the parser
+accepts any integer) and no time limit, the loop never ends by itself — it can only end on an
+error.  (`fromAct ≤ play.length` always holds for a compiled play: the repeat point is an act of the
+storyline.)
+
+The statement without the two hypotheses on `fromAct` ("count ≤ 0, no time limit, non-empty play, no
+failure ⇒ never finished") is false of the model: without a `repeat` clause (`fromAct = 0`, where the
+default count is -1) the play simply ends, and with a repeat point beyond the last act the jump
+leaves the play: `perform Ex.env Ex.play ⟨3, 0, false⟩ 50 = (_, true, true)` (example below). -/
+theorem repeat_zero_unbounded (hfa : 0 < rp.fromAct) (hle : rp.fromAct ≤ play.length)
+    (hc : rp.count ≤ 0) (hto : rp.hasTimeout = false)
+    (hnofail : ∀ r ∈ (perform env play rp fuel).1, r.ok = false → r.failOk = true) :
+    (perform env play rp fuel).2.2 = false := by
+  cases hfin : (perform env play rp fuel).2.2 with
+  | false => rfl
+  | true =>
+    have h1 := (perform_step env play rp fuel).never_finishes hfa hle hc hto (by omega) hfin
+    rw [tolerated_continues env play rp fuel hnofail] at h1; cases h1
+
+/-! ## Non-vacuity (`Shk.Prompt.Ex`: two acts, concurrent lines, a tolerated failure, `repeat 2 times`) -/
+
+-- the play of the example ends with status 0 although the tolerated action `y?` failed …
+example : (perform Ex.env Ex.play Ex.rp 20).2 = (true, true) := by decide
+example : ∃ r ∈ (perform Ex.env Ex.play Ex.rp 20).1, r.ok = false ∧ r.failOk = true := by decide
+example : ∀ r ∈ (perform Ex.env Ex.play Ex.rp 20).1, r.ok = false → r.failOk = true := by decide
+-- `tolerated_next_step`: in `Ex.playTol` the tolerated failure (step 1) is followed by step 2, performed
+example : (perform Ex.env Ex.playTol Ex.rp 20).1.map (fun r => (r.pos, r.ok, r.failOk)) =
+    [(⟨0, 0, 0, 0, 0⟩, true, false), (⟨0, 0, 0, 0, 1⟩, true, true), (⟨0, 0, 0, 1, 0⟩, true, false),
+     (⟨0, 0, 1, 0, 0⟩, true, false), (⟨0, 0, 1, 0, 1⟩, false, true), (⟨0, 0, 1, 0, 2⟩, true, false),
+     (⟨1, 1, 0, 0, 0⟩, true, false), (⟨2, 1, 0, 0, 0⟩, true, false)] := by decide
+-- the hypotheses of `exit0_repeat_N` / `exit0_multiplicity_N` / `repeat_count_total` hold for `Ex.rp`, N = 2
+example : 0 < Ex.rp.fromAct ∧ Ex.rp.hasTimeout = false ∧ Ex.rp.count = ((2 : Nat) : Int) ∧
+    Ex.play.length + 2 * (Ex.play.length - Ex.rp.fromAct + 1) ≤ 4 := by decide
+-- … and the multiplicities: the action of act 2 is performed twice, `y?` of act 1 scene 2 once
+example : (perform Ex.env Ex.play Ex.rp 20).1.countP
+    (fun r => r.pos.act == 1 && r.pos.scene == 0 && r.pos.line == 0 && r.pos.step == 0) = 2 := by decide
+example : (perform Ex.env Ex.play Ex.rp 20).1.countP
+    (fun r => r.pos.act == 0 && r.pos.scene == 1 && r.pos.line == 0 && r.pos.step == 1) = 1 := by decide
+-- … its trace is the expected one for 2 passes: act 2 is played twice (act occurrences 1 and 2)
+example : (perform Ex.env Ex.play Ex.rp 20).1.map (·.pos) = expectedTrace Ex.play Ex.rp 2 := by decide
+example : expectedTrace Ex.play Ex.rp 2 =
+    [⟨0, 0, 0, 0, 0⟩, ⟨0, 0, 0, 0, 1⟩, ⟨0, 0, 0, 1, 0⟩, ⟨0, 0, 1, 0, 0⟩, ⟨0, 0, 1, 0, 1⟩,
+     ⟨1, 1, 0, 0, 0⟩, ⟨2, 1, 0, 0, 0⟩] := by decide
+example : actMultiplicity Ex.play Ex.rp 2 0 = 1 ∧ actMultiplicity Ex.play Ex.rp 2 1 = 2 := by decide
+-- the fuel bound of `repeat_count_total` for the example is 2 + 2 * (2 - 2 + 1) = 4
+example : (perform Ex.env Ex.play Ex.rp 4).2.2 = true ∧ (perform Ex.env Ex.play Ex.rp 2).2.2 = false := by
+  decide
+-- the same failure, not tolerated: error result; the third step of the line, scene 3 and act 2 are
+-- not performed
+example : (perform Ex.env Ex.playStrict Ex.rp 20).2 = (false, true) := by decide
+example : (perform Ex.env Ex.playStrict Ex.rp 20).1.map (·.pos) =
+    [⟨0, 0, 0, 0, 0⟩, ⟨0, 0, 0, 0, 1⟩, ⟨0, 0, 0, 1, 0⟩, ⟨0, 0, 1, 0, 0⟩, ⟨0, 0, 1, 0, 1⟩] := by decide
+example : ∃ r ∈ (perform Ex.env Ex.playStrict Ex.rp 20).1, r.ok = false ∧ r.failOk = false := by decide
+-- `repeat 0 times` / `repeat always` without time limit: never finished, whatever the fuel (here 50);
+-- the hypotheses of `repeat_zero_unbounded` hold
+example : (0 < (⟨2, 0, false⟩ : Repeat).fromAct ∧ (⟨2, 0, false⟩ : Repeat).fromAct ≤ Ex.play.length) ∧
+    ∀ r ∈ (perform Ex.env Ex.play ⟨2, 0, false⟩ 50).1, r.ok = false → r.failOk = true := by decide
+example : (perform Ex.env Ex.play ⟨2, 0, false⟩ 50).2 = (true, false) := by decide
+example : (perform Ex.env Ex.play ⟨2, -1, false⟩ 50).2 = (true, false) := by decide
+-- the hypothesis `fromAct ≤ play.length` of `repeat_zero_unbounded` is needed: a repeat point beyond
+-- the last act (impossible for a compiled play) ends the loop
+example : (perform Ex.env Ex.play ⟨3, 0, false⟩ 50).2 = (true, true) := by decide
+-- a time limit ends the repetition: `repeat always` + limit striking after the second pass: 2 passes
+example : (perform Ex.envTimeout Ex.play ⟨2, -1, true⟩ 50).1.map (·.pos) = expectedTrace Ex.play ⟨2, -1, true⟩ 2 := by
+  decide
+-- without repeat clause: one pass
+example : (perform Ex.env Ex.play ⟨0, -1, false⟩ 50).1.map (·.pos) = expectedTrace Ex.play ⟨0, -1, false⟩ 1 := by
+  decide
 
 end Shk.C05
